@@ -213,6 +213,38 @@ def padMaskedCore (value : α) (T : Nat) (rows : List (MaskRow α)) :
 def transpose {β : Type} (B : Nat) (X : List (List β)) (dflt : β) : List (List β) :=
   (List.range B).map (fun j => X.map (fun row => row.getD j dflt))
 
+/-- `mask.expand(A, B)` for a 2-D tensor given as nested lists together with its own shape `(a, b)`
+(the nested list cannot carry `b` when `a = 0`): torch's rule, a dimension of size 1 is repeated,
+every other size must match; RuntimeError otherwise. -/
+def expand2 {β : Type} (A B a b : Nat) (m : List (List β)) : Except Err (List (List β)) :=
+  if (a = A ∨ a = 1) ∧ (b = B ∨ b = 1) then
+    let rows := if a = A then m else (List.replicate A (m.headD []))
+    .ok (rows.map (fun row => if b = B then row else
+      match row with
+      | v :: _ => List.replicate B v
+      | [] => []))
+  else .error .runtime
+
+/-- `pad_masked_sequence(x, mask, batch_first, padding_value)` on whole tensors: `x` has outer shape
+`(d0, d1)` (then the frame), `mask` has shape `(m0, m1)`. Not batch-first: both are transposed, the
+batch-first core runs, the result is transposed back. The (repaired) code expands the mask to the
+first two dimensions of `x` before counting (`fixes/C09-masked-broadcast-mask.diff`); the reported
+lengths have one entry per batch element. -/
+def padMaskedSequence (batchFirst : Bool) (value : α) (d0 d1 : Nat) (x : List (List α))
+    (m0 m1 : Nat) (mask : List (List Bool)) (dflt : α) : Except Err (List (List α) × List Nat) :=
+  let xb := if batchFirst then x else transpose d1 x dflt
+  let N := if batchFirst then d0 else d1
+  let T := if batchFirst then d1 else d0
+  let mraw := if batchFirst then mask else transpose m1 mask false
+  let a := if batchFirst then m0 else m1
+  let b := if batchFirst then m1 else m0
+  match expand2 N T a b mraw with
+  | .error e => .error e
+  | .ok mb =>
+    match padMaskedCore value T (List.zipWith (fun xs m => (⟨xs, m⟩ : MaskRow α)) xb mb) with
+    | .error e => .error e
+    | .ok (out, lens) => .ok (if batchFirst then out else transpose T out dflt, lens)
+
 /-! ## `chunk_by_slices` -/
 
 structure ChunkRow (α : Type) where
@@ -319,5 +351,86 @@ def randomShift (pinned : Bool) (mode : Mode) (value : α) (T : Nat) (p0 p1 : Ra
     | .error e => .error e
     | .ok out => .ok (out, rows.map (fun s => (s.toPad p0 p1).newLen))
   else .ok (rows.map (·.x), rows.map (·.len))
+
+/-! ## shape validation: what each function accepts, as a function of the argument SHAPES
+
+A shape is the list of dimension sizes torch reports. These functions follow the checks the code makes
+before it touches data (and nothing else); the property theorems `C09_shapes_*` say that they accept
+exactly the documented shapes and name the error class of every refusal. -/
+
+abbrev Shape := List Nat
+
+/-- `pad_variable`: `x.ndim < 2`, `lens.shape != (N,)`, `pad.shape != (2, N)` → ValueError. -/
+def padVariableShapes (x lens pad : Shape) : Except Err Unit :=
+  match x with
+  | N :: _ :: _ =>
+    if lens ≠ [N] then .error .value
+    else if pad ≠ [2, N] then .error .value
+    else .ok ()
+  | _ => .error .value
+
+/-- `chunk_by_slices`: `x.ndim < 2` → RuntimeError; an empty batch, or an empty time dimension in a
+non-constant mode, returns before `lens` is looked at; `lens` is `None` or of shape `(N,)`, else
+RuntimeError. (The shape of `slices` is not checked by the code.) -/
+def chunkBySlicesShapes (mode : Mode) (x : Shape) (lens : Option Shape) : Except Err Unit :=
+  match x with
+  | N :: T :: _ =>
+    if N = 0 ∨ (T = 0 ∧ mode ≠ .constant) then .ok ()
+    else match lens with
+      | none => .ok ()
+      | some l => if l ≠ [N] then .error .runtime else .ok ()
+  | _ => .error .runtime
+
+/-- `pad_masked_sequence`: `x.ndim < 2`, `mask.ndim != 2` → RuntimeError; the mask must `expand` to the
+first two dimensions of `x` (torch: equal sizes, or size 1), else RuntimeError. Both tensors are
+transposed together when not batch-first, so the layout flag does not enter. -/
+def padMaskedShapes (x mask : Shape) : Except Err Unit :=
+  match x, mask with
+  | d0 :: d1 :: _, [m0, m1] =>
+    if (m0 = d0 ∨ m0 = 1) ∧ (m1 = d1 ∨ m1 = 1) then .ok () else .error .runtime
+  | _, _ => .error .runtime
+
+/-- `random_shift`: `input.dim() < 2`, `in_lens.dim() != 1`, `in_lens.size(0) != N` → RuntimeError, in
+training and in evaluation mode alike (`pad_variable`'s own checks then always pass: it is handed
+`in_lens` and a freshly stacked `(2, N)` tensor). -/
+def randomShiftShapes (x lens : Shape) : Except Err Unit :=
+  match x with
+  | N :: _ :: _ => if lens ≠ [N] then .error .runtime else .ok ()
+  | _ => .error .runtime
+
+/-! ## `random_shift` under floating-point rounding
+
+`rnd` stands for rounding to the working precision. The code computes
+`trunc (rnd (rnd (prop * len) * u))`, with `prop` already a number of that precision (the repaired code
+works in double precision, where the configured `prop` is one; the code before
+`fixes/C09-random-shift-float32-bound.diff` worked in float32, i.e. with `rnd prop` in place of `prop`). -/
+
+def shiftAmountR (rnd : Rat → Rat) (prop : Rat) (len : Nat) (u : Rat) : Nat :=
+  (rnd (rnd (prop * (len : Rat)) * u)).floor.toNat
+
+/-- `2^s` for an integer exponent -/
+def pow2 (s : Int) : Rat := if 0 ≤ s then ((2 ^ s.toNat : Nat) : Rat) else 1 / ((2 ^ (-s).toNat : Nat) : Rat)
+
+/-- Round-to-nearest, ties to even, of a positive rational to `prec` significant bits (a binary
+floating-point format with unbounded exponent: float32 is `prec = 24`, float64 `prec = 53`, away from
+overflow and subnormals). Non-positive inputs are returned as they are (not needed here). -/
+def roundBits (prec : Nat) (q : Rat) : Rat :=
+  if q ≤ 0 then q else
+  let e0 : Int := (q.num.toNat.log2 : Int) - (q.den.log2 : Int)
+  let e : Int := if pow2 e0 ≤ q then e0 else e0 - 1          -- 2^e ≤ q < 2^(e+1)
+  let s : Int := (prec : Int) - 1 - e
+  let scaled := q * pow2 s                                     -- in [2^(prec-1), 2^prec)
+  let m := scaled.floor
+  let frac := scaled - (m : Rat)
+  let m' := if frac < 1 / 2 then m else if 1 / 2 < frac then m + 1 else if m % 2 = 0 then m else m + 1
+  (m' : Rat) * pow2 (-s)
+
+/-- the amount the code before `fixes/C09-random-shift-float32-bound.diff` added: everything in float32,
+the configured proportion rounded first -/
+def shiftAmountF32 (prop : Rat) (len : Nat) (u : Rat) : Nat :=
+  shiftAmountR (roundBits 24) (roundBits 24 prop) len u
+
+/-- the amount the repaired code adds: double precision, `prop` is a double already -/
+def shiftAmountF64 (prop : Rat) (len : Nat) (u : Rat) : Nat := shiftAmountR (roundBits 53) prop len u
 
 end PdtVerif.PadChunk
